@@ -26,6 +26,18 @@ type c11Case struct {
 func genC11(t *rapid.T) c11Case {
 	call := lib.GenStreamCall(t, lib.CallID(0))
 	call.BadParams = ""
+	// most cases should get past init and run several turns
+	if call.Stream.InitOutcome != "ok" && rapid.IntRange(0, 3).Draw(t, "keepinitfail") != 0 {
+		call.Stream.InitOutcome, call.Stream.InitErr = "ok", nil
+	}
+	for len(call.Stream.Turns) < 4 && rapid.IntRange(0, 2).Draw(t, "moreturns") != 0 {
+		call.Stream.Turns = append([]lib.TurnSpec{{Act: "emit", Rows: rapid.IntRange(1, 2).Draw(t, "mrows")}}, call.Stream.Turns...)
+	}
+	if call.ConcreteKind() == "exchange" {
+		for len(call.Inputs) < len(call.Stream.Turns) && len(call.Inputs) > 0 {
+			call.Inputs = append(call.Inputs, lib.InputSpec{Type: call.Inputs[0].Type, Vals: []int64{int64(len(call.Inputs))}})
+		}
+	}
 	c := c11Case{Limit: []int{0, 1, 2, 5}[rapid.IntRange(0, 3).Draw(t, "limit")], Compress: rapid.Bool().Draw(t, "compress"), CancelReq: -1}
 	ninst := rapid.IntRange(1, 3).Draw(t, "ninst")
 	for i := 0; i < ninst; i++ {
